@@ -284,3 +284,19 @@ mut("c16f-push-coalesced-unguarded", "C16", IDS, "    if range.start >= range.en
 mut("c16f-benign-flipped-comparison", "C16", IDS, "                if other_range.start > start {\n                    result.push((start..other_range.start, value.clone()));",
     "                if start < other_range.start {\n                    result.push((start..other_range.start, value.clone()));", "", kind="benign")
 mut("c16f-benign-tail-guard-negated", "C16", IDS, "            if start < end {\n                result.push((start..end, value.clone()));\n            }", "            if !(start >= end) {\n                result.push((start..end, value.clone()));\n            }", "", kind="benign")
+UN = "yrs/src/undo.rs"
+mut("scan-undo-stack-only-top", "C12", UN, "        for item in self.0.iter() {\n            if item.deletions.contains(id) {\n                return true;\n            }\n        }\n        false",
+    "        match self.0.last() {\n            Some(item) => item.deletions.contains(id),\n            None => false,\n        }", "C12.i")
+mut("scan-undo-stack-skip-first", "C12", UN, "        for item in self.0.iter() {\n            if item.deletions.contains(id) {", "        for item in self.0.iter().skip(1) {\n            if item.deletions.contains(id) {", "C12.i")
+mut("scan-benign-undo-stack-any", "C12", UN, "        for item in self.0.iter() {\n            if item.deletions.contains(id) {\n                return true;\n            }\n        }\n        false",
+    "        self.0.iter().any(|item| item.deletions.contains(id))", "", kind="benign")
+mut("scan-undo-stack-all", "C12", UN, "        for item in self.0.iter() {\n            if item.deletions.contains(id) {\n                return true;\n            }\n        }\n        false",
+    "        self.0.iter().all(|item| item.deletions.contains(id))", "C12.i")
+mut("scan-parent-single-hop", "C12", "yrs/src/branch.rs", "                if parent.deref() == self {\n                    return true;\n                }\n                ptr = parent.item;\n            } else {\n                break;\n            }\n        }\n        false",
+    "                return parent.deref() == self;\n            } else {\n                break;\n            }\n        }\n        false", "C12.j")
+mut("scan-scope-first-only", "C12", UN, "                if !item.is_deleted() && scope.iter().any(|b| b.is_parent_of(Some(item))) {", "                if !item.is_deleted() && scope.iter().take(1).any(|b| b.is_parent_of(Some(item))) {", "C12.k")
+mut("scan-scope-all", "C12", UN, "                if !item.is_deleted() && scope.iter().any(|b| b.is_parent_of(Some(item))) {", "                if !item.is_deleted() && scope.iter().all(|b| b.is_parent_of(Some(item))) {", "C12.k")
+mut("scan-subset-first-range", "C16", "yrs/src/id_set.rs", "        for (range, _) in self.iter() {\n            if !Self::is_range_covered(range, other) {\n                return false;\n            }\n        }\n        true",
+    "        match self.iter().next() {\n            Some((range, _)) => Self::is_range_covered(range, other),\n            None => true,\n        }", "C16.g")
+mut("scan-benign-subset-all", "C16", "yrs/src/id_set.rs", "        for (range, _) in self.iter() {\n            if !Self::is_range_covered(range, other) {\n                return false;\n            }\n        }\n        true",
+    "        self.iter().all(|(range, _)| Self::is_range_covered(range, other))", "", kind="benign")
